@@ -150,6 +150,123 @@ theorem verify_sound {D : Type} [Inhabited D] [DecidableEq D] (H2 : D → D → 
     subst h
     exact computeRev_sound H2 hinj leaf _ ls i hc
 
+/-! ## a verifying proof fixes the leaf hash (for every total, whatever the root is) -/
+
+/-- core: two runs of `computeHashFromAunts` for the same `(index, total)` that end in the same digest
+started from the same leaf hash and used the same aunts.  No assumption on where the digest comes from. -/
+theorem computeRev_unique {D : Type} (H2 : D → D → D) (hinj : Inj2 H2) (leaf₁ leaf₂ : D) :
+    ∀ (ar₁ ar₂ : List D) (i n : Int) (r : D),
+      computeRev H2 leaf₁ i n ar₁ = some r → computeRev H2 leaf₂ i n ar₂ = some r → leaf₁ = leaf₂ ∧ ar₁ = ar₂ := by
+  intro ar₁
+  induction ar₁ with
+  | nil =>
+    intro ar₂ i n r h₁ h₂
+    simp only [computeRev] at h₁
+    split at h₁
+    · cases h₁
+    · split at h₁
+      · rename_i h1
+        cases ar₂ with
+        | nil =>
+          simp only [computeRev] at h₂
+          split at h₂
+          · cases h₂
+          · try rw [if_pos h1] at h₂
+            simp only [Option.some.injEq] at h₁ h₂
+            exact ⟨h₁.trans h₂.symm, rfl⟩
+        | cons b rest =>
+          simp only [computeRev] at h₂
+          split at h₂
+          · cases h₂
+          · try rw [if_pos h1] at h₂
+            cases h₂
+      · cases h₁
+  | cons a rest ih =>
+    intro ar₂ i n r h₁ h₂
+    simp only [computeRev] at h₁
+    split at h₁
+    · cases h₁
+    · rename_i hb
+      split at h₁
+      · cases h₁
+      · rename_i h1
+        cases ar₂ with
+        | nil =>
+          simp only [computeRev] at h₂
+          rw [if_neg hb, if_neg h1] at h₂
+          cases h₂
+        | cons b rest₂ =>
+          simp only [computeRev] at h₂
+          rw [if_neg hb, if_neg h1] at h₂
+          split at h₁
+          · rename_i hlt
+            rw [if_pos hlt] at h₂
+            split at h₁
+            · cases h₁
+            · rename_i l₁ hl₁
+              split at h₂
+              · cases h₂
+              · rename_i l₂ hl₂
+                simp only [Option.some.injEq] at h₁ h₂
+                obtain ⟨hl, ha⟩ := hinj _ _ _ _ (h₁.trans h₂.symm)
+                subst hl ha
+                obtain ⟨e₁, e₂⟩ := ih rest₂ _ _ _ hl₁ hl₂
+                exact ⟨e₁, by rw [e₂]⟩
+          · rename_i hge
+            rw [if_neg hge] at h₂
+            split at h₁
+            · cases h₁
+            · rename_i r₁ hr₁
+              split at h₂
+              · cases h₂
+              · rename_i r₂ hr₂
+                simp only [Option.some.injEq] at h₁ h₂
+                obtain ⟨ha, hr⟩ := hinj _ _ _ _ (h₁.trans h₂.symm)
+                subst ha hr
+                obtain ⟨e₁, e₂⟩ := ih rest₂ _ _ _ hr₁ hr₂
+                exact ⟨e₁, by rw [e₂]⟩
+
+/-- **verify_fixes_leaf**: for every total `n`, every index `i` and EVERY digest `r` (not only roots the
+library produced): if two (leaf hash, proof) pairs verify against `r` at index `i` of `n`, they are the
+same leaf hash and the same proof.  This is `root_inj_same_length` seen from the verifier. -/
+theorem verify_fixes_leaf {D : Type} [DecidableEq D] (H2 : D → D → D) (hinj : Inj2 H2)
+    (i n : Int) (r leaf₁ leaf₂ : D) (aunts₁ aunts₂ : List D)
+    (h₁ : verify H2 i n leaf₁ aunts₁ r = true) (h₂ : verify H2 i n leaf₂ aunts₂ r = true) :
+    leaf₁ = leaf₂ ∧ aunts₁ = aunts₂ := by
+  unfold verify computeHashFromAunts at h₁ h₂
+  split at h₁
+  · cases h₁
+  · rename_i c₁ hc₁
+    split at h₂
+    · cases h₂
+    · rename_i c₂ hc₂
+      simp only [decide_eq_true_eq] at h₁ h₂
+      subst h₁
+      subst h₂
+      obtain ⟨e₁, e₂⟩ := computeRev_unique H2 hinj leaf₁ leaf₂ _ _ i n _ hc₁ hc₂
+      exact ⟨e₁, List.reverse_inj.mp e₂⟩
+
+/-- nothing verifies outside `0 ≤ i < n` -/
+theorem verify_index_in_range {D : Type} [DecidableEq D] (H2 : D → D → D)
+    (i n : Int) (r leaf : D) (aunts : List D) (h : verify H2 i n leaf aunts r = true) : 0 ≤ i ∧ i < n := by
+  unfold verify computeHashFromAunts at h
+  split at h
+  · cases h
+  · rename_i c hc
+    cases hr : aunts.reverse with
+    | nil =>
+      rw [hr] at hc
+      simp only [computeRev] at hc
+      split at hc
+      · cases hc
+      · omega
+    | cons a rest =>
+      rw [hr] at hc
+      simp only [computeRev] at hc
+      split at hc
+      · cases hc
+      · omega
+
 /-! ## completeness -/
 
 theorem computeRev_complete {D : Type} [Inhabited D] (H2 : D → D → D) :
@@ -278,5 +395,8 @@ example : verify Tree.node 1 3 (.leaf 1) [.leaf 0, .leaf 2] (root Tree.node [.le
 example : proofs Tree.node [.leaf 0, .leaf 1] = [[.leaf 1], [.leaf 0]] := by
   rw [proofs_split _ _ (by simp)]
   simp [proofs_single, root_single]
+
+/-- non-vacuity of `verify_fixes_leaf`: two verifying runs exist (and coincide) -/
+example : verify Tree.node 0 2 (.leaf 0) [.leaf 1] (Tree.node (.leaf 0) (.leaf 1)) = true := by decide
 
 end Props.C12
